@@ -1,49 +1,41 @@
 #!/usr/bin/env python3
-"""prints the markdown table of DESIGN.md section 14 from /verif/seeded/*/
-(directories <id>-rN hold re-runs of the checks after they were strengthened;
-the latest run per check counts, earlier misses are listed separately)"""
+"""prints the markdown table of DESIGN.md section 14 from /verif/seeded/<id>/
+(detect.json = first run of the checks against the seed, detect_rN.json = re-runs
+after the checks were strengthened; the latest run per check counts)"""
 import glob
 import json
 import os
 import re
 
-seeds = {}
+print("| seed | change | needs to manifest | caught by (signatures of the latest run) | missed at first, caught after strengthening | other checks run, silent |")
+print("|------|--------|-------------------|------------------------------------------|----------------------------------------------|--------------------------|")
 for d in sorted(glob.glob("/verif/seeded/*/")):
     sid = os.path.basename(d.rstrip("/"))
-    m = re.match(r"(.*?)(?:-r(\d+))?$", sid)
-    base, rnd = m.group(1), int(m.group(2) or 1)
-    seeds.setdefault(base, []).append((rnd, d))
-
-print("| seed | property | change (needs to manifest) | confirmed | caught by (signatures) | first missed by, caught after strengthening | still not caught by |")
-print("|------|----------|----------------------------|-----------|------------------------|---------------------------------------------|---------------------|")
-for base, runs in sorted(seeds.items()):
-    runs.sort()
-    d0 = runs[0][1]
     try:
-        meta = json.load(open(d0 + "meta.json"))
+        meta = json.load(open(d + "meta.json"))
     except Exception:
         meta = {}
-    conf = {}
-    for _, d in runs:
-        try:
-            c = json.load(open(d + "confirm.json"))
-            if "suite_exit_with_change" in c:
-                conf = c
-        except Exception:
-            pass
+    try:
+        conf = json.load(open(d + "confirm.json"))
+    except Exception:
+        conf = {}
     confirmed = conf.get("suite_exit_with_change") == 0 and conf.get("demo_exit_clean") == 0 and conf.get("demo_exit_with_change", 0) != 0
+    files = [d + "detect.json"] + sorted(glob.glob(d + "detect_r*.json"), key=lambda p: int(re.search(r"_r(\d+)", p).group(1)))
     latest, first = {}, {}
-    for _, d in runs:
+    for f in files:
         try:
-            det = json.load(open(d + "detect.json"))
+            det = json.load(open(f))
         except Exception:
             continue
         for c, r in det.items():
+            if r.get("exit") not in (0, 1):
+                continue            # tool error / interrupted run: not a verdict
             first.setdefault(c, r)
             latest[c] = r
     caught = {c: r for c, r in latest.items() if r.get("exit") == 1}
-    missed = [c for c, r in latest.items() if r.get("exit") == 0]
+    silent = [c for c, r in latest.items() if r.get("exit") == 0]
     improved = [c for c in caught if first[c].get("exit") == 0]
-    sig = "; ".join("%s: %s" % (c, ", ".join(s for s in r.get("signatures", "").split(";") if s)[:90]) for c, r in sorted(caught.items()))
-    what = (meta.get("summary") or "")[:170].replace("|", "/") + " — needs: " + (meta.get("needs_to_manifest") or "")[:170].replace("|", "/")
-    print("| %s | %s | %s | %s | %s | %s | %s |" % (base, meta.get("property", "?"), what, "yes" if confirmed else "NO", sig or "-", ", ".join(sorted(improved)) or "-", ", ".join(sorted(missed)) or "-"))
+    sig = "; ".join("%s: %s" % (c, ", ".join(s for s in r.get("signatures", "").split(";") if s)[:80]) for c, r in sorted(caught.items()))
+    esc = lambda s: (s or "").replace("|", "/").replace("\n", " ")
+    print("| %s%s | %s | %s | %s | %s | %s |" % (sid, "" if confirmed else " (NOT confirmed)", esc(meta.get("summary"))[:200],
+          esc(meta.get("needs_to_manifest"))[:200], sig or "**none**", ", ".join(sorted(improved)) or "-", ", ".join(sorted(silent)) or "-"))
